@@ -57,6 +57,9 @@ type resolver struct {
 	unresolvedUses []*usesUnresolved
 	loadedModules  map[string]*Module
 	trace          bool
+
+	// submodules already merged into a module, submodules may include each other
+	includedSubmodules map[string]struct{}
 }
 
 func (r *resolver) module(y *Module) error {
@@ -220,6 +223,14 @@ func (r *resolver) copyOverIncludes(main *Module, includes []*Include) error {
 		if i.loader == nil {
 			return errors.New("no module loader defined")
 		}
+		includeId := main.ident + "/" + i.subName
+		if _, done := r.includedSubmodules[includeId]; done {
+			continue
+		}
+		if r.includedSubmodules == nil {
+			r.includedSubmodules = make(map[string]struct{})
+		}
+		r.includedSubmodules[includeId] = struct{}{}
 		var err error
 		var rev string
 		if i.rev != nil {
